@@ -41,7 +41,111 @@ func runC17Plot(c vgen.PlotCase) error {
 	if err != nil {
 		return err
 	}
-	return vgen.CheckPlot(c, pd)
+	if err := vgen.CheckPlot(c, pd); err != nil {
+		return err
+	}
+	// rendering again shows the same plot
+	var buf2 bytes.Buffer
+	if _, err := p.WriteTo(&buf2); err != nil {
+		return fmt.Errorf("second WriteTo on the same plot: %v", err)
+	}
+	pd2, err := vgen.ParsePlotHTML(buf2.String())
+	if err != nil {
+		return fmt.Errorf("second rendering of the same plot: %v", err)
+	}
+	if err := vgen.CheckPlot(c, pd2); err != nil {
+		return fmt.Errorf("second rendering of the same plot: %v", err)
+	}
+	// ... and so does a plot that was rendered once while only part of the results had arrived
+	q := plot.New(plot.Title("c17"), plot.Downsample(c.Threshold), plot.Label(plot.ErrorLabeler))
+	half := len(c.Arrival) / 2
+	for i, ref := range c.Arrival {
+		if i == half {
+			_, _ = q.WriteTo(&bytes.Buffer{}) // (may be rejected, may be partial: only the final rendering is judged)
+		}
+		if err := q.Add(c.Result(ref)); err != nil {
+			return fmt.Errorf("Add after an intermediate rendering: %v", err)
+		}
+	}
+	q.Close()
+	var buf3 bytes.Buffer
+	if _, err := q.WriteTo(&buf3); err != nil {
+		return fmt.Errorf("WriteTo after an intermediate rendering at %d of %d results: %v", half, len(c.Arrival), err)
+	}
+	pd3, err := vgen.ParsePlotHTML(buf3.String())
+	if err != nil {
+		return fmt.Errorf("rendering after an intermediate rendering: %v", err)
+	}
+	if err := vgen.CheckPlot(c, pd3); err != nil {
+		return fmt.Errorf("plot rendered once after %d of %d results and again at the end: %v", half, len(c.Arrival), err)
+	}
+	return nil
+}
+
+// one attack of more than half a million results whose first request's result arrives last
+// (a fast attack whose first request ran into the timeout)
+type c17Huge struct {
+	N         int
+	GapNS     int64
+	Late      int // the result of this sequence number arrives last
+	Threshold int
+}
+
+func runC17Huge(h c17Huge) error {
+	a := vgen.PlotAttack{Name: "huge", TS: make([]int64, h.N), Latency: make([]int64, h.N), Failed: make([]bool, h.N)}
+	ts := int64(1.7e18)
+	for i := 0; i < h.N; i++ {
+		a.TS[i] = ts
+		ts += h.GapNS + int64(i%7)
+		a.Latency[i] = int64(1e6 + (i*7919)%5e6)
+	}
+	c := vgen.PlotCase{Attacks: []vgen.PlotAttack{a}, Threshold: h.Threshold}
+	for s := 0; s < h.N; s++ {
+		if s != h.Late {
+			c.Arrival = append(c.Arrival, vgen.PlotRef{Attack: 0, Seq: s})
+		}
+	}
+	c.Arrival = append(c.Arrival, vgen.PlotRef{Attack: 0, Seq: h.Late})
+	p := plot.New(plot.Title("c17"), plot.Downsample(c.Threshold), plot.Label(plot.ErrorLabeler))
+	for _, ref := range c.Arrival {
+		if err := p.Add(c.Result(ref)); err != nil {
+			return fmt.Errorf("Add: %v", err)
+		}
+	}
+	p.Close()
+	var buf bytes.Buffer
+	if _, err := p.WriteTo(&buf); err != nil {
+		return fmt.Errorf("WriteTo: %v", err)
+	}
+	pd, err := vgen.ParsePlotHTML(buf.String())
+	if err != nil {
+		return err
+	}
+	if err := vgen.CheckPlot(c, pd); err != nil {
+		return fmt.Errorf("attack of %d results, the result of seq %d arriving last: %v", h.N, h.Late, err)
+	}
+	return nil
+}
+
+func TestC17Huge(t *testing.T) {
+	if !vh.Thorough() && vh.Shard() != 0 {
+		t.Skip("quick: shard 0 only")
+	}
+	vh.Check(t, 1, 3, func(t *rapid.T) {
+		h := c17Huge{N: rapid.IntRange(530000, 700000).Draw(t, "n"), GapNS: rapid.SampledFrom([]int64{1000, 50000, 2000000}).Draw(t, "gap")}
+		h.Late = rapid.SampledFrom([]int{0, 0, 1, 5}).Draw(t, "late")
+		h.Threshold = rapid.SampledFrom([]int{0, 4000}).Draw(t, "threshold")
+		if h.Late != 0 {
+			h.Threshold = 0 // (a single lost point in the middle is visible only without downsampling)
+		}
+		vh.Case("C17.huge", fmt.Sprintf("%+v", h), true)
+		vh.Sample("C17.huge", true, h)
+		var err error
+		vh.Guard("C17", "C17.huge", h, func() { err = runC17Huge(h) })
+		if err != nil {
+			vh.Fail(t, "C17", "C17.huge", h, err)
+		}
+	})
 }
 
 func TestC17Plot(t *testing.T) {
@@ -66,4 +170,7 @@ func TestC17Plot(t *testing.T) {
 	})
 }
 
-func init() { vh.RegisterReplay("C17.plot", vh.Replayer(runC17Plot)) }
+func init() {
+	vh.RegisterReplay("C17.plot", vh.Replayer(runC17Plot))
+	vh.RegisterReplay("C17.huge", vh.Replayer(runC17Huge))
+}
